@@ -244,6 +244,16 @@ def linear(f, e, env):
         if set(b) <= {1}:
             return dict((kk, vv * b.get(1, 0)) for kk, vv in a.items())
         return None
+    if k == 'cast' and e.get('ck') in ('IntegralCast', 'NoOp', 'LValueToRValue'):
+        return linear(f, e['e'], env)
+    if k == 'un' and e.get('op') == '-':
+        a = linear(f, e['e'], env)
+        return None if a is None else dict((kk, -vv) for kk, vv in a.items())
+    if k == 'un' and e.get('op') == '+':
+        return linear(f, e['e'], env)
+    if env == 'atoms' and k in ('cond', 'call', 'mem', 'idx', 'un'):
+        # an opaque integer quantity: equal texts denote equal values within one straight-line region
+        return {('atom', pe(e)): 1}
     return None
 
 
@@ -289,12 +299,30 @@ def check_capacity(ctx, prog):
         cfg = cfgm.CFG(f)
 
         def count_var(call):
-            size = call['a'][-1]
-            lf = linear(f, size, None)
-            if lf is None:
-                return None
-            vs = [k_ for k_, c in lf.items() if k_ != 1 and c > 0]
-            return vs[0] if len(vs) == 1 else None
+            """printed form of the element count X in an allocation of X * sizeof(T) + sizeof(header), read through
+            single-assignment locals"""
+            size = strip(q.expand(f, call['a'][-1]))
+            while size.get('k') == 'cast':
+                size = strip(size['e'])
+            if size.get('k') == 'bin' and size.get('op') == '+':
+                for prod, other in ((size['x'], size['y']), (size['y'], size['x'])):
+                    pr = strip(prod)
+                    while pr.get('k') == 'cast':
+                        pr = strip(pr['e'])
+                    if const_val(other) is not None and pr.get('k') == 'bin' and pr.get('op') == '*':
+                        for cnt, fac in ((pr['x'], pr['y']), (pr['y'], pr['x'])):
+                            if const_val(fac) is not None and const_val(cnt) is None:
+                                c_ = strip(cnt)
+                                while c_.get('k') == 'cast':
+                                    c_ = strip(c_['e'])
+                                return pe(c_)
+            return None
+
+        def same_count(y, key):
+            v = strip(q.expand(f, y))
+            while v.get('k') == 'cast':
+                v = strip(v['e'])
+            return pe(v) == key
         problems = []
 
         def step(nd, st):
@@ -313,8 +341,7 @@ def check_capacity(ctx, prog):
                     facts = frozenset(x for x in facts if tgt['id'] not in x[2])
                     return (alloc, facts)
                 if tgt is not None and tgt.get('k') == 'mem' and tgt.get('fq') == 'asl::Array::Data::s' and e.get('op') == '=' and alloc is not None and alloc[0] == 'alloc':
-                    val = linear(f, e['y'], None)
-                    if alloc[1] is None or val == {alloc[1]: 1}:
+                    if alloc[1] is None or same_count(e['y'], alloc[1]):
                         return (('recorded',), facts)
                     problems.append((e.get('l'), 'the capacity recorded (`%s`) is not the element count the block was allocated for' % pe(e['y'])))
                     return (('recorded',), facts)
@@ -368,7 +395,7 @@ def check_tailmove(ctx, prog):
                 # element size: sizeof(T) factor in the count
                 szs = [w['v'] for w in walk_expr(e['a'][2]) if w.get('k') == 'int' and w.get('sizeof') is not None]
                 esz = szs[0] if szs else None
-                cnt = linear(f, q.expand(f, e['a'][2], stop=nvars), None)
+                cnt = linear(f, q.expand(f, e['a'][2], stop=nvars), 'atoms')
                 role = f['n'] + ':tail move covers exactly the old tail'
                 if cnt is None or not esz:
                     ctx.undecided('R-TAILMOVE', f['pq'], role, fwhere(f, e['l']), 'move count `%s` is not linear with a sizeof factor' % pe(e['a'][2]))
@@ -385,9 +412,9 @@ def check_tailmove(ctx, prog):
                     scale = 1
                     tb = T(f, bx.get('t'))
                     if bx.get('k') == 'mem' and bx.get('f') == '_a':
-                        off = linear(f, x['y'], None)
+                        off = linear(f, x['y'], 'atoms')
                     elif bx.get('k') == 'bin' and bx.get('op') == '+' and strip(bx['x']).get('f') == '_a':
-                        a1, a2 = linear(f, bx['y'], None), linear(f, x['y'], None)
+                        a1, a2 = linear(f, bx['y'], 'atoms'), linear(f, x['y'], 'atoms')
                         if a1 is not None and a2 is not None:
                             off = dict(a1)
                             for kk, vv in a2.items():
